@@ -600,12 +600,12 @@ def harnesses(tier: str) -> List[Harness]:
         hs.append(Harness("events_late_chain", h_events5, _slices(3, 7) + _slices(4, 7) + _slices(5, 7), budget_s=200))
         hs.append(Harness("events_propagated", h_events5, _slices(3, 8) + _slices(4, 8), budget_s=300))
     else:
-        hs.append(Harness("events_full", h_events3, _slices(1, 0, both) + _slices(2, 0, both) + _slices(3, 0), budget_s=2500))
-        hs.append(Harness("events_len4", h_events5, _slices(4, 3), budget_s=2500))
-        hs.append(Harness("events_len5", h_events5, _slices(5, 5), budget_s=2500))
-        hs.append(Harness("events_len5_levels", h_events5, _slices(5, 6), budget_s=2500))
-        hs.append(Harness("events_late_chain", h_events5, _slices(3, 7) + _slices(4, 7) + _slices(5, 7), budget_s=2500))
-        hs.append(Harness("events_propagated", h_events5, _slices(3, 8) + _slices(4, 8) + _slices(5, 8), budget_s=2500))
+        hs.append(Harness("events_full", h_events3, _slices(1, 0, both) + _slices(2, 0, both) + _slices(3, 0), budget_s=300))
+        hs.append(Harness("events_len4", h_events5, _slices(4, 3), budget_s=300))
+        hs.append(Harness("events_len5", h_events5, _slices(5, 5), budget_s=300))
+        hs.append(Harness("events_len5_levels", h_events5, _slices(5, 6), budget_s=300))
+        hs.append(Harness("events_late_chain", h_events5, _slices(3, 7) + _slices(4, 7) + _slices(5, 7), budget_s=300))
+        hs.append(Harness("events_propagated", h_events5, _slices(3, 8) + _slices(4, 8) + _slices(5, 8), budget_s=300))
     return hs
 
 
